@@ -5,7 +5,7 @@ cAddrs == {"a1", "a2"}
 cKeyOrd == <<"v1", "none", "v9">>
 cGenesis == [keypers |-> <<"a1">>, thr |-> 1, eon0 |-> 0,
              vals |-> [k \in {"v1", "none", "v9"} |-> IF k = "v9" THEN 10 ELSE 0],
-             forkOn |-> FALSE, forkH |-> 0, dev |-> FALSE]
+             forkOn |-> FALSE, forkH |-> 0, dev |-> FALSE, legacy |-> FALSE]
 cCands == << [keypers |-> <<"a1", "a2">>, thr |-> 1, act |-> 0, idx |-> 1] >>
 cSeenBlocks == {1}
 cCheckKeys == {"v1"}
